@@ -1,20 +1,12 @@
-(* C38: the unguarded statements are false for the code that exists (witnesses evaluated by
-   the kernel; each is replayed on the library by checks/C38.py, see known_findings.txt):
-   - the empty grid leaves the vectors (grid[0], weights[0]);
-   - len_w = len_g*(max_deriv+1) wraps modulo 2^32 and weights is indexed outside;
-   - with a repeated grid point the weights are zoo/nan (outside the property's domain). *)
+(* C38: outside the property's domain (a repeated grid point) the weights are zoo/nan --
+   SymEngine's div(a, 0) returns ComplexInf/NaN instead of throwing; witness evaluated by the
+   kernel and replayed on the library by the correspondence runs of checks/C38.py.
+   (The two in-bounds refutations -- empty grid, wrapping index space -- are gone: the library
+   was repaired, see the `fixed:` entries of known_findings.txt and P_fdiff_in_bounds.v.) *)
 From SE Require Import C38.FdiffSpec C38.FdiffProofs.
-Theorem C38_in_bounds_refuted_empty_grid :
-  exists (around : Qc) (max_deriv : N), fdiff nil max_deriv around = ErrOOB 0 0.
-Proof. exact in_bounds_refuted_empty. Qed.
-Theorem C38_in_bounds_refuted_index_wrap :
-  exists (grid : list Qc) (around : Qc) (max_deriv : N),
-    qc_distinct grid = true /\ grid <> nil /\ N.lt max_deriv W32 /\
-    fdiff grid max_deriv around = ErrOOB 2 2.
-Proof. exact in_bounds_refuted_wrap. Qed.
 Theorem C38_exact_refuted_repeated_point :
   exists (grid : list Qc) (around : Qc) (max_deriv : N),
     guard_size (length grid) max_deriv = true /\
     exists w, fdiff grid max_deriv around = Ok w /\ forallb is_rational w = false.
 Proof. exact exact_refuted_repeated_point. Qed.
-Print Assumptions C38_in_bounds_refuted_index_wrap.
+Print Assumptions C38_exact_refuted_repeated_point.
